@@ -147,6 +147,24 @@ CLAIMS = {
   design="DESIGN.md §4 C18",
   note="Shapes with concrete names/types; TTLs < 2^31. Open known finding legacy_nodata_success (pinned by the repository's "
        "own tests)."),
+ "C12": dict(
+  text="Bounded model checking (CBMC): the real ares_search_name_list() against a reference written from resolv.conf(5) "
+       "for all names of length 0..4 over {a, '.', '\\'}, ndots, domain lists incl. the root domain, NOSEARCH/NOALIASES, "
+       "alias hit/miss/failure and any single allocation failure; the candidate walk of ares_search.c (C01/search.c, one "
+       "step, inductive) and of ares_getaddrinfo.c (next_lookup / host_callback / end_hquery, one step): candidates in "
+       "list order, stop at first data or hard error, no-data beats not-found, callback exactly once.",
+  design="DESIGN.md §4 C12",
+  note="Alias file abstracted behind the ares_buf/ares_array calls of ares_lookup_hostaliases (real line parser: C15); "
+       "sends and answer parsing are contract stubs in the walk harnesses; names up to 4 (quick) / 5 (thorough) bytes."),
+ "C13": dict(
+  text="Bounded model checking (CBMC): ares_sortaddrinfo relinks a permutation of its input nodes (N<=3, symbolic addresses, "
+       "real comparator, reference sort in place of qsort) and the comparator is a consistent order; the sortlist "
+       "insertion sort keeps the address multiset; ares_parse_into_addrinfo yields exactly the A/AAAA answers of the "
+       "requested family with port and TTL and the CNAME chain; addrinfo->hostent/addrttl copy one-to-one within "
+       "capacity; ares_dns_addr_to_ptr for all IPv4 (digit-shape enumeration) and IPv6 addresses; localhost rule.",
+  design="DESIGN.md §4 C13",
+  note="Socket probes of find_src_addr are contract stubs; libc qsort replaced by a reference sort; end-to-end "
+       "ares_getaddrinfo with hosts file outside the claim. Open known finding sort_compare_nontransitive."),
 }
 NA = {}
 for i in range(1, 21):
